@@ -828,7 +828,8 @@ def run_round4(run, r, unit, model, n):
                 fl = q.numerator // q.denominator
                 if b != fl:
                     bad = "value %r: bin %d, the bin that contains it is %d" % (xs[d], b, fl)
-                elif not (0 <= bb < nx[d]) or (0 <= fl < nx[d] and bb != fl) or (not per[d] and fl < 0 and bb != 0) or (not per[d] and fl >= nx[d] and bb != nx[d] - 1):
+                elif not (0 <= bb < nx[d]) or (0 <= fl < nx[d] and bb != fl) or (not per[d] and fl < 0 and bb != 0) or (not per[d] and fl >= nx[d] and bb != nx[d] - 1) \
+                        or (per[d] and bb != fl % nx[d]):    # periodic: the bin that contains the value modulo the period
                     bad = "value %r (bin %d of %d, periodic %d): bounded bin %d" % (xs[d], fl, nx[d], per[d], bb)
                 elif not (0 <= fr_ < 1) or fl + fr_ != q:
                     bad = "value %r: fraction %s inside bin %d, (x-lower)/width = %s" % (xs[d], float(fr_), fl, float(q))
